@@ -563,3 +563,100 @@ theorem fwdLoop_ff (net : Net W) (σ : Nat → W → Option W) (sens : Nat → W
       exact this.2
 
 end GoNeat.Solver
+
+/-! ### LoadSensors on any state marks every listed sensor as loaded -/
+namespace GoNeat.Solver
+variable {W : Type} [Scalar W]
+
+theorem count_upd_sensorLoad (s : St W) (i : Nat) (x : W) (j : Nat) :
+    (get s j).count ≤ (get (upd s i (sensorLoad x)) j).count ∧
+      (j = i → i < s.length → 0 < (get (upd s i (sensorLoad x)) j).count) := by
+  by_cases hj : j = i
+  · subst hj
+    by_cases hl : j < s.length
+    · rw [get_upd_self _ _ _ hl]
+      simp [sensorLoad, saveActs]
+    · rw [upd_ge _ _ _ (by omega)]
+      exact ⟨Nat.le_refl _, fun _ h => absurd h hl⟩
+  · rw [get_upd_ne _ _ _ _ hj]
+    exact ⟨Nat.le_refl _, fun h => absurd h hj⟩
+
+theorem loadNe_loaded (net : Net W) (is : List Nat) :
+    ∀ (xs : List W) (s : St W), (loadNe net is xs s).2 = none →
+      (∀ j, (get s j).count ≤ (get (loadNe net is xs s).1 j).count) ∧
+      (∀ i ∈ is, isSensorAt net i = true → i < s.length → 0 < (get (loadNe net is xs s).1 i).count) := by
+  induction is with
+  | nil => intro xs s _; exact ⟨fun _ => Nat.le_refl _, fun i hi => by simp at hi⟩
+  | cons i rest ih =>
+    intro xs s hok
+    unfold loadNe at hok ⊢
+    -- common continuation after loading `i` with some value `x`
+    have cont : ∀ (x : W) (xs' : List W), (loadNe net rest xs' (upd s i (sensorLoad x))).2 = none →
+        (∀ j, (get s j).count ≤ (get (loadNe net rest xs' (upd s i (sensorLoad x))).1 j).count) ∧
+        (∀ i' ∈ i :: rest, isSensorAt net i' = true → i' < s.length →
+          0 < (get (loadNe net rest xs' (upd s i (sensorLoad x))).1 i').count) := by
+      intro x xs' h
+      obtain ⟨m, p⟩ := ih xs' (upd s i (sensorLoad x)) h
+      refine ⟨fun j => Nat.le_trans (count_upd_sensorLoad s i x j).1 (m j), fun i' hi' hs hl => ?_⟩
+      rcases List.mem_cons.mp hi' with rfl | hi'
+      · exact Nat.lt_of_lt_of_le ((count_upd_sensorLoad s i' x i').2 rfl hl) (m i')
+      · exact p i' hi' hs (by simpa using hl)
+    split
+    · next hk =>
+      simp only [hk, if_true] at hok
+      cases xs with
+      | nil => simp at hok
+      | cons x xs' => exact cont x xs' hok
+    · next hk =>
+      simp only [hk] at hok
+      split
+      · next hsn =>
+        simp only [hsn, if_true] at hok
+        exact cont Scalar.one xs hok
+      · next hsn =>
+        simp only [hsn] at hok
+        obtain ⟨m, p⟩ := ih xs s hok
+        refine ⟨m, fun i' hi' hs hl => ?_⟩
+        rcases List.mem_cons.mp hi' with rfl | hi'
+        · exact absurd hs hsn
+        · exact p i' hi' hs hl
+
+theorem loadEq_loaded (net : Net W) (is : List Nat) :
+    ∀ (xs : List W) (s : St W), (loadEq net is xs s).2 = none →
+      (∀ j, (get s j).count ≤ (get (loadEq net is xs s).1 j).count) ∧
+      (∀ i ∈ is, isSensorAt net i = true → i < s.length → 0 < (get (loadEq net is xs s).1 i).count) := by
+  induction is with
+  | nil => intro xs s _; exact ⟨fun _ => Nat.le_refl _, fun i hi => by simp at hi⟩
+  | cons i rest ih =>
+    intro xs s hok
+    unfold loadEq at hok ⊢
+    split
+    · next hsn =>
+      simp only [hsn, if_true] at hok
+      cases xs with
+      | nil => simp at hok
+      | cons x xs' =>
+        simp only at hok ⊢
+        obtain ⟨m, p⟩ := ih xs' (upd s i (sensorLoad x)) hok
+        refine ⟨fun j => Nat.le_trans (count_upd_sensorLoad s i x j).1 (m j), fun i' hi' hs hl => ?_⟩
+        rcases List.mem_cons.mp hi' with rfl | hi'
+        · exact Nat.lt_of_lt_of_le ((count_upd_sensorLoad s i' x i').2 rfl hl) (m i')
+        · exact p i' hi' hs (by simpa using hl)
+    · next hsn =>
+      simp only [hsn] at hok
+      obtain ⟨m, p⟩ := ih xs s hok
+      refine ⟨m, fun i' hi' hs hl => ?_⟩
+      rcases List.mem_cons.mp hi' with rfl | hi'
+      · exact absurd hs hsn
+      · exact p i' hi' hs hl
+
+/-- after an error-free `LoadSensors` every sensor listed in `inputs` has been loaded at least once -/
+theorem loadSensors_loaded (net : Net W) (xs : List W) (s : St W) (hok : (loadSensors net xs s).2 = none) :
+    (loadSensors net xs s).1.length = s.length ∧
+      ∀ i ∈ net.inputs, isSensorAt net i = true → i < s.length → 0 < (get (loadSensors net xs s).1 i).count := by
+  unfold loadSensors at hok ⊢
+  split
+  · next h => simp only [h, if_true] at hok; exact ⟨length_loadEq .., (loadEq_loaded net _ xs s hok).2⟩
+  · next h => simp only [h] at hok; exact ⟨length_loadNe .., (loadNe_loaded net _ xs s hok).2⟩
+
+end GoNeat.Solver
